@@ -102,6 +102,7 @@ type Rule struct {
 	Marker string   `json:"marker"`
 	Links  []Link   `json:"links"`
 	Status int      `json:"status"`
+	StatusLast bool `json:"statusLast"` // render status: after the other actions
 	Sev    int      `json:"sev"`
 	Tags   []string `json:"tags"`
 	Msg    string   `json:"msg"`
